@@ -66,7 +66,12 @@ class LookModel(LinModel):
 
 
 class LookInterp(LinInterp, Interp):
-    pass
+    def ev(self, fr, n, depth):
+        if n is not None and n['k'] == 'ArraySubscriptExpr':
+            base, idx = Lin.of(self.ev(fr, n['c'][0], depth)), Lin.of(self.ev(fr, n['c'][1], depth))
+            if base is not None and idx is not None:
+                return self.model.deref(self, fr, n, base + idx)         # p[i] is *(p + i)
+        return Interp.ev(self, fr, n, depth)
 
 
 def check_lookahead(prog, rep):
@@ -109,6 +114,8 @@ def check_lookahead(prog, rep):
                     st.fields['ec'] = 0
                     st.fields['ptr'] = P
                     fr.env[p['d']] = st
+                elif 't' in p and f.type(p).replace('const', '').strip().endswith('*'):
+                    fr.env[p['d']] = B + L          # the end of the text handed over as a pointer
                 else:
                     fr.env[p['d']] = Sym('VIEW')
         agg = {}
